@@ -18,8 +18,8 @@ use std::net::{Ipv4Addr, SocketAddrV4};
 use std::rc::Rc;
 
 const IMM_FORGERIES: [&str; 7] = ["authentic", "other-value", "bit-flip", "empty", "over-long", "mutable-shaped", "truncated"];
-const MUT_FORGERIES: [&str; 12] = ["authentic", "other-key", "other-salt", "no-salt-sig", "altered-seq", "altered-value", "flip-k", "flip-sig", "over-long-v", "ro-flagged", "short-k", "immutable-shaped"];
-const SIG_FORGERIES: [&str; 9] = ["authentic", "other-infohash", "other-timestamp", "other-key", "flip-sig", "mixed-valid-invalid", "empty-entry", "short-entry", "double-entry"];
+const MUT_FORGERIES: [&str; 14] = ["authentic", "authentic-older-seq", "authentic-same-seq-other-value", "other-key", "other-salt", "no-salt-sig", "altered-seq", "altered-value", "flip-k", "flip-sig", "over-long-v", "ro-flagged", "short-k", "immutable-shaped"];
+const SIG_FORGERIES: [&str; 11] = ["authentic", "authentic-older", "authentic-newer", "other-infohash", "other-timestamp", "other-key", "flip-sig", "mixed-valid-invalid", "empty-entry", "short-entry", "double-entry"];
 
 #[derive(Clone)]
 struct Truth {
@@ -44,6 +44,17 @@ fn mutable_reply(tr: &Truth, forgery: &str, rng: &mut Rng) -> (B, bool) {
     let mut k = sg.k.to_vec();
     let mut ro = false;
     match forgery {
+        // genuine items of the same key from replicas that are behind / that hold a conflicting write:
+        // validly signed, so they may be yielded - but only as they were signed
+        "authentic-older-seq" => {
+            seq -= 1;
+            v = b"an older genuine value".to_vec();
+            sg = sign_mutable(&tr.signer, seq, &v, salt);
+        }
+        "authentic-same-seq-other-value" => {
+            v = b"zz a conflicting genuine value".to_vec();
+            sg = sign_mutable(&tr.signer, seq, &v, salt);
+        }
         "other-key" => {
             sg = sign_mutable(&tr.other, seq, &v, salt);
             k = sg.k.to_vec();
@@ -78,6 +89,9 @@ fn signed_entries(tr: &Truth, forgery: &str, rng: &mut Rng) -> Vec<Vec<u8>> {
     let good = entry(&tr.signer, &tr.ih, tr.ts, tr.ts);
     match forgery {
         "authentic" => vec![good, entry(&tr.other, &tr.ih, tr.ts + 5, tr.ts + 5)],
+        // the same announcer's genuine announcement as a stale / a fresher replica holds it
+        "authentic-older" => vec![entry(&tr.signer, &tr.ih, tr.ts - 3_600_000_000, tr.ts - 3_600_000_000)],
+        "authentic-newer" => vec![entry(&tr.signer, &tr.ih, tr.ts + 40_000_000, tr.ts + 40_000_000), entry(&tr.other, &tr.ih, tr.ts + 41_000_000, tr.ts + 41_000_000)],
         "other-infohash" => vec![entry(&tr.signer, &[0x77; 20], tr.ts, tr.ts)],
         "other-timestamp" => vec![entry(&tr.signer, &tr.ih, tr.ts, tr.ts + 1)],
         "other-key" => {
